@@ -6,6 +6,8 @@ import (
 
 	"github.com/taurusgroup/multi-party-sig/verif/fw"
 	"github.com/taurusgroup/multi-party-sig/verif/mut"
+	"github.com/taurusgroup/multi-party-sig/verif/scen"
+	"github.com/taurusgroup/multi-party-sig/verif/sim"
 )
 
 func init() {
@@ -13,9 +15,9 @@ func init() {
 		ID: "C05", Level: "fault_enumeration", Engine: "netsim+byzantine",
 		Cases: func(tier string) int {
 			if tier == "thorough" {
-				return 80000
+				return sysCases() + 80000
 			}
-			return 4000
+			return sysCases() + 4000
 		},
 		Run:  runC05,
 		Rule: "fault catalogue = (protocol x session kind x handler state reached by a real session prefix under a drawn schedule x message kind x field path x malformation {absent, null, empty, type confusion (uint, negative int, text, bytes, array, map, bool, float), 1 MiB byte string, deep nesting, length-prefix 0 / 2^32-16, truncated nested encoding, oversized array, duplicate map key, indefinite-length item, huge declared length, truncate/extend by one byte, boundary values, bit flip} plus header malformations and raw byte strings); monitors: panic on the calling goroutine, worker-process death, hang watchdog, and the end-state rule (outgoing channel closed <=> Result is final). Non-trivial = the malformed message was actually delivered to a live honest handler. Distinct = (protocol, kind, message kind, operator, path class).",
@@ -27,9 +29,83 @@ func init() {
 	})
 }
 
+// the systematic core: for small fixed scenarios of the cheap protocols, every cell of the structural
+// catalogue (message of the deviating party x field path x structural operator) is enumerated by case
+// number, independently of the seed. Cases [0, sysCases) belong to it.
+var sysScenarios = []struct {
+	p    scen.Proto
+	k    scen.Kind
+	n, t int
+}{
+	{scen.FROST, scen.KKeygen, 3, 1}, {scen.FROST, scen.KRefresh, 3, 1}, {scen.FROST, scen.KSign, 3, 1},
+	{scen.FROSTTaproot, scen.KKeygen, 2, 1}, {scen.FROSTTaproot, scen.KSign, 2, 1},
+	{scen.Doerner, scen.KKeygen, 2, 1}, {scen.Doerner, scen.KRefresh, 2, 1}, {scen.Doerner, scen.KSign, 2, 1},
+	{scen.FROST, scen.KXor, 3, 2},
+}
+
+var sysOps = []string{"drop", "null", "zero-length", "type-uint", "type-text", "type-bytes", "type-array", "type-map", "boundary", "array-remove-last", "blob-truncate", "blob-prefix-zero", "truncate-1"}
+
+const sysCellsPerScenario = 420
+
+func sysCases() int { return len(sysScenarios) * sysCellsPerScenario }
+
+func fixedScenario(c *fw.Ctx, p scen.Proto, k scen.Kind, n, t int) *scen.Scenario {
+	ids := scen.IDPool[:n]
+	sc := &scen.Scenario{Kind: k, Proto: p, N: n, T: t, IDs: ids, Parts: ids, SID: []byte(c.Label("sid", "main"))}
+	if k != scen.KXor && k != scen.KKeygen {
+		sc.Mat = scen.PrepMaterial(c, p, ids, t, "prep")
+		sc.Y, sc.HasY = sc.Mat.PublicKey(ids[0]), true
+		sc.Msg = []byte("systematic-core-message-32-bytes")
+	}
+	sc.Name = sc.String()
+	return sc
+}
+
+func runC05Systematic(c *fw.Ctx) {
+	si := c.Case % len(sysScenarios)
+	cell := c.Case / len(sysScenarios)
+	sp := sysScenarios[si]
+	sc := fixedScenario(c, sp.p, sp.k, sp.n, sp.t)
+	b := newByz(c, sc, sysOps, true, cell)
+	if len(b.Targets) == 0 {
+		return
+	}
+	wrapped := cell >= b.CellCount
+	b.Start()
+	b.Sess.Net.Policy = sim.FIFO{}
+	b.Sess.Net.Run()
+	c.Absorb(b.Sess.Net)
+	delete(c.Res.Faults, "drop")
+	c.Res.Desc = fmt.Sprintf("systematic %s cell %d/%d target=%s alteration=%v", sc.Name, cell%maxI(b.CellCount, 1), b.CellCount, b.TargetKey, b.Applied)
+	c.Probe("systematic_cells_total:"+sc.Name, 0)
+	if b.Applied == nil {
+		return
+	}
+	c.Res.NonTrivial = !wrapped
+	c.Res.DistinctID = fmt.Sprintf("sys/%s/%d", sc.Name, cell%b.CellCount)
+	c.Res.States = append(c.Res.States, fmt.Sprintf("syscell:%s/%d", sc.Name, cell%b.CellCount), fmt.Sprintf("syscatalogue:%s=%d", sc.Name, b.CellCount))
+	c.Fault("malformed_delivery(systematic):"+b.Applied.Op, 1)
+	judgeC05(c, b)
+}
+
+func maxI(a, b int) int {
+	if a > b {
+		return a
+	}
+	return b
+}
+
 func runC05(c *fw.Ctx) {
+	if c.Case < sysCases() {
+		runC05Systematic(c)
+		return
+	}
 	if c.S.Draw(8, "c05-mode") == 7 {
 		runC05Raw(c)
+		return
+	}
+	if c.S.Draw(16, "c05-dealer") == 15 {
+		runDealer(c, func(b *Byz) { judgeC05(c, b) })
 		return
 	}
 	b := NewByz(c, byzOpts(c, 8), mut.MalformOps, true)
@@ -46,6 +122,12 @@ func runC05(c *fw.Ctx) {
 	c.Res.NonTrivial = true
 	c.Res.DistinctID = b.where()
 	c.Fault("malformed_delivery:"+b.Applied.Op, 1)
+	judgeC05(c, b)
+	c.Res.Sample = map[string]interface{}{"desc": c.Res.Desc}
+}
+
+// judgeC05 applies the crash / hang / pool-task / clean-end monitors to the honest parties of a world.
+func judgeC05(c *fw.Ctx, b *Byz) {
 	// crash / hang of any HONEST party
 	for _, id := range b.Honest {
 		nd := b.Sess.Nodes[id]
@@ -65,5 +147,4 @@ func runC05(c *fw.Ctx) {
 		}
 	}
 	b.CheckClean()
-	c.Res.Sample = map[string]interface{}{"desc": c.Res.Desc}
 }
